@@ -2,8 +2,8 @@
    these definitions of /repo; tools/srcfacts.py regenerates their normal-form digests on every run (coq/Gen/Src_*.v).
    Statements only. *)
 From Coq Require Import List String.
-From ME Require Import Model.SrcExpected Gen.Src_event Gen.Src_retry Gen.Src_poll Gen.Src_throttle Gen.Src_timeout Gen.Src_cos
-  Proofs.Src_ok_event Proofs.Src_ok_retry Proofs.Src_ok_poll Proofs.Src_ok_throttle Proofs.Src_ok_timeout Proofs.Src_ok_cos.
+From ME Require Import Model.SrcExpected Gen.Src_event Gen.Src_retry Gen.Src_poll Gen.Src_throttle Gen.Src_timeout Gen.Src_cos Gen.Src_common Gen.Src_map Gen.Src_flat_map Gen.Src_helpers
+  Proofs.Src_ok_event Proofs.Src_ok_retry Proofs.Src_ok_poll Proofs.Src_ok_throttle Proofs.Src_ok_timeout Proofs.Src_ok_cos Proofs.Src_ok_common Proofs.Src_ok_map Proofs.Src_ok_flat_map Proofs.Src_ok_helpers.
 
 (* more_executors/_impl/event.py *)
 Theorem c12_source_event : Src_event.facts = expected_event.
@@ -23,6 +23,18 @@ Proof. exact src_timeout_ok. Qed.
 (* more_executors/_impl/cancel_on_shutdown.py *)
 Theorem c12_source_cos : Src_cos.facts = expected_cos.
 Proof. exact src_cos_ok. Qed.
+(* more_executors/_impl/common.py *)
+Theorem c12_source_common : Src_common.facts = expected_common.
+Proof. exact src_common_ok. Qed.
+(* more_executors/_impl/map.py *)
+Theorem c12_source_map : Src_map.facts = expected_map.
+Proof. exact src_map_ok. Qed.
+(* more_executors/_impl/flat_map.py *)
+Theorem c12_source_flat_map : Src_flat_map.facts = expected_flat_map.
+Proof. exact src_flat_map_ok. Qed.
+(* more_executors/_impl/helpers.py *)
+Theorem c12_source_helpers : Src_helpers.facts = expected_helpers.
+Proof. exact src_helpers_ok. Qed.
 
 Print Assumptions c12_source_event.
 Print Assumptions c12_source_retry.
@@ -30,3 +42,7 @@ Print Assumptions c12_source_poll.
 Print Assumptions c12_source_throttle.
 Print Assumptions c12_source_timeout.
 Print Assumptions c12_source_cos.
+Print Assumptions c12_source_common.
+Print Assumptions c12_source_map.
+Print Assumptions c12_source_flat_map.
+Print Assumptions c12_source_helpers.
